@@ -43,6 +43,28 @@ const STATS: [Stat; 23] = [
     Stat::Rank { pct: true, rev: false },
 ];
 
+/// a NaN whose sign bit is set (what 0.0 / 0.0 evaluates to on x86-64) is the same null
+fn neg_nan() -> f64 {
+    f64::from_bits(f64::NAN.to_bits() | (1u64 << 63))
+}
+/// NaN encoding in which every second null (all of them when `all`) carries the sign bit
+fn neg_nan_encoding(x: &[Option<f64>], all: bool) -> Vec<f64> {
+    let mut k = 0usize;
+    x.iter()
+        .map(|v| match v {
+            Some(x) => *x,
+            None => {
+                k += 1;
+                if all || k % 2 == 1 {
+                    neg_nan()
+                } else {
+                    f64::NAN
+                }
+            },
+        })
+        .collect()
+}
+
 /// relation 1 for rolling functions: NaN-encoded vs None-encoded input, and the four output encodings
 fn encoding_rolling(c: &RollCase, obs: &mut Obs) -> CheckResult {
     let stat = STATS[(c.p as usize) % STATS.len()];
@@ -67,6 +89,15 @@ fn encoding_rolling(c: &RollCase, obs: &mut Obs) -> CheckResult {
         variants.push(("Option<i32> input (all Some)", run(InT::OptI32, OutT::F64)?));
     } else if int_data {
         variants.push(("Option<i32> input", run(InT::OptI32, OutT::F64)?));
+    }
+    if !all_valid {
+        let fneg = neg_nan_encoding(&c.x, c.w % 2 == 0);
+        let r = tvh::sut::via_vec(fneg.len(), c.out_buf, |buf| match stat {
+            Stat::Fdiff(d) => tvh::sut::roll_vfdiff::<Vec<f64>, f64, Vec<f64>, f64>(&fneg, d, c.w, c.mp, buf),
+            _ => tvh::sut::roll_valid::<Vec<f64>, f64, Vec<f64>, f64>(&fneg, stat, c.w, c.mp, buf),
+        })
+        .map_err(|e| Fail { sig: format!("{}:out-path", name), detail: e })?;
+        variants.push(("f64 input with sign-bit NaN nulls", normalize(r)));
     }
     for (what, v) in &variants {
         // integer inputs sum in integer arithmetic: identical for the small integers generated here
@@ -175,7 +206,58 @@ fn encoding_map_agg(c: &RollCase, obs: &mut Obs) -> CheckResult {
     same_f!("vcov", sa::vcov(f.clone(), g.clone(), mp), sa::vcov(o.clone(), go.clone(), mp).unwrap_or(f64::NAN));
     same_f!("vcorr_pearson", sa::vcorr_pearson(f.clone(), g.clone(), mp), sa::vcorr_pearson(o.clone(), go.clone(), mp));
     same_f!("vcorr(Spearman)", f.vcorr(&g, c.mp, CorrMethod::Spearman), o.vcorr(&go, c.mp, CorrMethod::Spearman).unwrap_or(f64::NAN));
+    // the NaN encoding with sign-bit NaNs against the canonical NaN encoding
     let nulls = c.x.iter().filter(|v| v.is_none()).count();
+    if nulls >= 1 {
+        let h = neg_nan_encoding(&c.x, c.w % 2 == 0);
+        same!("vshift(-NaN)", sm::vshift(&f, n, fill), sm::vshift(&h, n, fill));
+        same!("ffill(-NaN)", sm::ffill(&f, fill), sm::ffill(&h, fill));
+        same!("bfill(-NaN)", sm::bfill(&f, fill), sm::bfill(&h, fill));
+        same!("fill(-NaN)", sm::fill(&f, 3.25), sm::fill(&h, 3.25));
+        same!("vclip(-NaN)", sm::vclip(&f, -2.0, 5.0), sm::vclip(&h, -2.0, 5.0));
+        same!("vclip(-NaN lower)", sm::vclip(&f, f64::NAN, 5.0), sm::vclip(&h, neg_nan(), 5.0));
+        same!("vabs(-NaN)", sm::vabs(&f), sm::vabs(&h));
+        let r1: Vec<f64> = f.vrank(pct, rev);
+        let r2: Vec<f64> = h.vrank(pct, rev);
+        same!("vrank(-NaN)", r1, r2);
+        for sort in [false, true] {
+            let a: Vec<i32> = Iterator::collect(f.varg_partition(k, sort, rev));
+            let b: Vec<i32> = Iterator::collect(h.varg_partition(k, sort, rev));
+            if sort && a != b {
+                return fail("varg_partition(-NaN):encoding", format!("varg_partition(k={}, sort) differs between NaN and sign-bit NaN encodings of {:?}: {:?} vs {:?}", k, c.x, a, b));
+            }
+            let a: Vec<f64> = Iterator::collect(f.vpartition(k, sort, rev));
+            let b: Vec<f64> = Iterator::collect(h.vpartition(k, sort, rev));
+            if sort {
+                same!("vpartition(-NaN)", a, b);
+            }
+        }
+        if sa::count_valid(f.clone()) != sa::count_valid(h.clone()) || sa::count_none(f.clone()) != sa::count_none(h.clone()) {
+            return fail("count(-NaN):encoding", "count_valid / count_none differ between NaN and sign-bit NaN");
+        }
+        same_f!("vsum(-NaN)", sa::vsum(f.clone()).unwrap_or(f64::NAN), sa::vsum(h.clone()).unwrap_or(f64::NAN));
+        same_f!("vmean(-NaN)", sa::vmean(f.clone()), sa::vmean(h.clone()));
+        same_f!("vvar(-NaN)", sa::vvar(f.clone(), mp), sa::vvar(h.clone(), mp));
+        same_f!("vskew(-NaN)", sa::vskew(f.clone(), mp), sa::vskew(h.clone(), mp));
+        same_f!("vkurt(-NaN)", sa::vkurt(f.clone(), mp), sa::vkurt(h.clone(), mp));
+        same_f!("vmax(-NaN)", sa::vmax(f.clone()).unwrap_or(f64::NAN), sa::vmax(h.clone()).unwrap_or(f64::NAN));
+        same_f!("vmin(-NaN)", sa::vmin(f.clone()).unwrap_or(f64::NAN), sa::vmin(h.clone()).unwrap_or(f64::NAN));
+        if sa::vargmax(f.clone()) != sa::vargmax(h.clone()) || sa::vargmin(f.clone()) != sa::vargmin(h.clone()) {
+            return fail("vargmax(-NaN):encoding", "vargmax / vargmin differ between NaN and sign-bit NaN");
+        }
+        same_f!("vfirst(-NaN)", sa::vfirst(f.clone()).unwrap_or(f64::NAN), sa::vfirst(h.clone()).unwrap_or(f64::NAN));
+        same_f!("vlast(-NaN)", sa::vlast(f.clone()).unwrap_or(f64::NAN), sa::vlast(h.clone()).unwrap_or(f64::NAN));
+        for (m, q) in [(QuantileMethod::Linear, 0.37), (QuantileMethod::Lower, 0.5), (QuantileMethod::Higher, 0.81), (QuantileMethod::MidPoint, 0.25)] {
+            same_f!("vquantile(-NaN)", f.vquantile(q, m).unwrap_or(f64::NAN), h.vquantile(q, m).unwrap_or(f64::NAN));
+        }
+        same_f!("vmedian(-NaN)", f.vmedian(), h.vmedian());
+        same_f!("vpercentile_of(-NaN)", f.clone().vpercentile_of(score, PercentileOfMethod::Rank), h.clone().vpercentile_of(score, PercentileOfMethod::Rank));
+        let gh: Vec<f64> = sm::vshift(&h, 1, None);
+        same_f!("vcov(-NaN)", sa::vcov(f.clone(), g.clone(), mp), sa::vcov(h.clone(), gh.clone(), mp));
+        same_f!("vcorr_pearson(-NaN)", sa::vcorr_pearson(f.clone(), g.clone(), mp), sa::vcorr_pearson(h.clone(), gh.clone(), mp));
+        same_f!("vcorr(Spearman,-NaN)", f.vcorr(&g, c.mp, CorrMethod::Spearman), h.vcorr(&gh, c.mp, CorrMethod::Spearman));
+        obs.class("sign_bit_nan");
+    }
     obs.set_nontrivial(nulls >= 1 && nulls + 2 <= c.x.len());
     Ok(())
 }
@@ -198,6 +280,8 @@ fn encoding_rolling2(c: &Roll2Case, obs: &mut Obs) -> CheckResult {
     variants.push(("f64 x Option", normalize(sut::via_vec(len, c.out_buf, |buf| sut::roll2::<_, f64, _, Option<f64>, Vec<f64>, f64>(&af, &bo, stat, c.w, c.mp, buf)).map_err(|e| Fail { sig: format!("{}:out-path", name), detail: e })?)));
     variants.push(("Option x f64", normalize(sut::via_vec(len, c.out_buf, |buf| sut::roll2::<_, Option<f64>, _, f64, Vec<f64>, f64>(&ao, &bf, stat, c.w, c.mp, buf)).map_err(|e| Fail { sig: format!("{}:out-path", name), detail: e })?)));
     variants.push(("Option<f64> output", normalize(sut::via_vec(len, c.out_buf, |buf| sut::roll2::<_, f64, _, f64, Vec<Option<f64>>, Option<f64>>(&af, &bf, stat, c.w, c.mp, buf)).map_err(|e| Fail { sig: format!("{}:out-path", name), detail: e })?)));
+    let (an, bn) = (neg_nan_encoding(&c.x, c.w % 2 == 0), neg_nan_encoding(&c.y, c.w % 3 == 0));
+    variants.push(("sign-bit NaN nulls", normalize(sut::via_vec(len, c.out_buf, |buf| sut::roll2::<_, f64, _, f64, Vec<f64>, f64>(&an, &bn, stat, c.w, c.mp, buf)).map_err(|e| Fail { sig: format!("{}:out-path", name), detail: e })?)));
     let int_ok = c.x.iter().chain(c.y.iter()).all(|v| v.map(|x| x.fract() == 0.0 && x.abs() < 1e6).unwrap_or(false));
     if int_ok {
         let (ai, bi): (Vec<i32>, Vec<i64>) = (materialize(&c.x), materialize(&c.y));
